@@ -3,7 +3,9 @@
    target machine Lang/Target.v (the NeoVM subset that code uses); the real compiler is tied to them per
    program by the correspondence run (same instruction sequence, same behaviour), the rest of the dialect
    by differential testing against the Go toolchain only.  Statements only; every proof is [exact lemma]. *)
+From NG Require Import VM.Model.
 From NG Require Import Common.Tactics Lang.MiniGo Lang.Target Lang.Compile Lang.CorrectBase Lang.Correct Lang.Mono.
+From NG Require Import Lang.Assemble Lang.VMRefine Lang.VMCorrect.
 Open Scope Z_scope.
 
 (* Whenever the source run of function [f] on [vs] is defined — it returns a value, or divides by zero; no
@@ -66,6 +68,82 @@ Theorem C14_program_layout : forall p f fn, nth_error p f = Some fn ->
 Proof. exact program_layout. Qed.
 Print Assumptions C14_program_layout.
 
+(* ---- down to the NeoVM model (VM/Model.v) on script bytes ----
+   [assemble_with ws P] (Lang/Assemble.v) encodes Target code as pkg/vm/emit and the compiler's writeJumps do:
+   real opcode bytes and operand widths, jump and call offsets relative to the instruction, short or long
+   form per instruction as [ws] says (the theorem holds for every choice whose offsets fit; [assemble] makes
+   the emitter's choice).  For EVERY Target program P (all 31 instructions of Lang/Target.v): the VM model run
+   on the assembled bytes, entered at the offset of instruction [entry] with the arguments pushed, does
+   what the Target run does, step for step: same HALT / FAULT / still-running outcome after n instructions,
+   same result stack.  Side conditions, where the VM has limits the Target machine lacks:
+     - [safe P n st]: every state the Target run visits holds at most MaxStackSize (2048) items on the stack
+       and in all slots, and at most MaxInvocationStackSize (1024) frames — a boolean function of the run;
+     - gas: limit negative (unlimited) or >= n * 512 * base (512 = CALL, the highest price of the subset);
+     - integers: none needed (both machines fault on a result outside 256 bits). *)
+Theorem C14_target_refines_vm : forall ws P bs sid base limit entry vs n,
+  assemble_with ws P = Some bs -> 0 <= base -> (entry <= length P)%nat ->
+  safe P n (Target.init_state entry vs) = true ->
+  gas_enough n base limit ->
+  match run_tgt P n entry vs with
+  | THalt rs => exists s', Model.run n (vm_entry bs sid base limit (off ws P entry) (map item_of vs)) = Halted s'
+                           /\ final_stack s' = map item_of rs
+  | TFault => exists g, Model.run n (vm_entry bs sid base limit (off ws P entry) (map item_of vs)) = Faulted g
+  | TTimeout => exists s', Model.run n (vm_entry bs sid base limit (off ws P entry) (map item_of vs)) = Running s'
+  end.
+Proof. exact target_refines_vm. Qed.
+Print Assumptions C14_target_refines_vm.
+
+(* read from the VM side *)
+Theorem C14_vm_reflects_target : forall ws P bs sid base limit entry vs n,
+  assemble_with ws P = Some bs -> 0 <= base -> (entry <= length P)%nat ->
+  safe P n (Target.init_state entry vs) = true ->
+  gas_enough n base limit ->
+  match Model.run n (vm_entry bs sid base limit (off ws P entry) (map item_of vs)) with
+  | Halted s' => exists rs, run_tgt P n entry vs = THalt rs /\ final_stack s' = map item_of rs
+  | Faulted _ => run_tgt P n entry vs = TFault
+  | Running _ => run_tgt P n entry vs = TTimeout
+  end.
+Proof. exact vm_reflects_target. Qed.
+Print Assumptions C14_vm_reflects_target.
+
+(* one instruction of the Target machine = one instruction of the VM model on the corresponding state *)
+Theorem C14_step_simulation : forall ws P bs sid base limit, assemble_with ws P = Some bs -> 0 <= base ->
+  forall st g, pcs_ok P st -> within st = true -> gas_ok base limit g 1 ->
+  sim_res ws P bs sid base limit st g (Target.step P st).
+Proof. exact step_sim. Qed.
+Print Assumptions C14_step_simulation.
+
+(* source semantics => VM model run of the assembled compiled code *)
+Theorem C14_compile_correct_on_vm_model : forall p f vs n ws bs sid base,
+  assemble_with ws (compile_program p) = Some bs -> 0 <= base ->
+  match run_src n p f vs with
+  | Ok rs => exists m0, forall m limit, (m0 <= m)%nat ->
+      safe (compile_program p) m (Target.init_state (entry p f) vs) = true -> gas_enough m base limit ->
+      exists s', Model.run m (vm_entry bs sid base limit (off ws (compile_program p) (entry p f)) (map item_of vs))
+                 = Halted s' /\ final_stack s' = map item_of rs
+  | Fault => exists m0, forall m limit, (m0 <= m)%nat ->
+      safe (compile_program p) m (Target.init_state (entry p f) vs) = true -> gas_enough m base limit ->
+      exists g, Model.run m (vm_entry bs sid base limit (off ws (compile_program p) (entry p f)) (map item_of vs))
+                = Faulted g
+  | _ => True
+  end.
+Proof. exact compile_correct_on_vm_model. Qed.
+Print Assumptions C14_compile_correct_on_vm_model.
+
+(* ... and no VM model run within the conditions ends any other way, whatever its number of steps *)
+Theorem C14_compile_correct_on_vm_model_any_fuel : forall p f vs n m ws bs sid base limit,
+  assemble_with ws (compile_program p) = Some bs -> 0 <= base ->
+  safe (compile_program p) m (Target.init_state (entry p f) vs) = true -> gas_enough m base limit ->
+  match run_src n p f vs,
+        Model.run m (vm_entry bs sid base limit (off ws (compile_program p) (entry p f)) (map item_of vs)) with
+  | Ok rs, Halted s' => final_stack s' = map item_of rs
+  | Ok _, Faulted _ => False
+  | Fault, Halted _ => False
+  | _, _ => True
+  end.
+Proof. exact compile_correct_on_vm_model_any_fuel. Qed.
+Print Assumptions C14_compile_correct_on_vm_model_any_fuel.
+
 (* non-vacuity: a program with a three-clause loop, continue, break, short-circuit operators, an op-assignment,
    a call and recursion, a function with three results bound by a multiple assignment with a blank target;
    one run returns a value, one divides by zero *)
@@ -118,3 +196,20 @@ Proof. repeat split; vm_compute; reflexivity. Qed.
 Example C14_example_overflow_undefined :
   run_src 50 [{| f_params := [0%N]; f_nres := 1; f_body := SReturn [EBin Mul (EVar 0%N) (EVar 0%N)] |}] 0 [VInt (2 ^ 32)] = Undef.
 Proof. vm_compute; reflexivity. Qed.
+
+(* the same example on the VM model: the compiled program assembles (the emitter's choice of widths: every jump
+   of it is short), the run stays within the limits, and the VM model halts with the source's value / faults;
+   gas limit 10^9 picoGAS-units at base 30 is enough for 2000 instructions *)
+Example C14_example_vm :
+  (exists bs, assemble (compile_program C14_ex) = Some bs /\ length bs = 176%nat) /\
+  safe (compile_program C14_ex) 2000 (Target.init_state (entry C14_ex 0) [VInt 12; VInt 5]) = true /\
+  (forall bs, assemble (compile_program C14_ex) = Some bs ->
+     option_map final_stack
+       (match Model.run 2000 (vm_entry bs 1%N 30 1000000000
+                 (off (shorten (compile_program C14_ex)) (compile_program C14_ex) (entry C14_ex 0))
+                 (map item_of [VInt 12; VInt 5])) with Halted s => Some s | _ => None end)
+     = Some [IInt 207]).
+Proof.
+  split; [eexists; split; vm_compute; reflexivity|]. split; [vm_compute; reflexivity|].
+  intros bs H. vm_compute in H. inv H. vm_compute. reflexivity.
+Qed.
